@@ -76,7 +76,7 @@ class Chain:
         exts = []
         ku = tw.get("ku", ku)
         if ku is not None:
-            exts.append(X.ext_key_usage(ku, critical=tw.get("ku_critical", True)))
+            exts.append(X.ext_key_usage(ku, critical=tw.get("ku_critical", True), padding=tw.get("ku_padding", ())))
         ca = tw.get("ca", ca)
         path_len = tw.get("path_len", path_len)
         if ca is not None:
